@@ -181,6 +181,13 @@ func (w *Watchdog) observe() {
 	if !w.autoEnabled {
 		return
 	}
+	// A group that has written raft records but never recorded a truncation segment may still
+	// need every raft record in the WAL: its pointer only names the newest segment.
+	for _, ptr := range ptrs {
+		if ptr.Segment > 0 && ptr.SegmentIndex == 0 {
+			return
+		}
+	}
 	if len(analysis.RemovableSegments) < w.minRemovable {
 		return
 	}
